@@ -28,6 +28,7 @@ pub fn plan() -> Plan {
         quick_histories: 400,
         thorough_histories: 60000,
         s5: Some((2, 30, s4common::s5_default(false, 0))),
+        enumerate_session_end: None,
     }
 }
 
